@@ -180,7 +180,32 @@ def rule_hist(fx, rep):
                 rep.violation("C02-HIST", f"C02-HIST/{un}/restore/{f}",
                               f"`{mk}` modifies Game.{f} but `{un}` does not restore it on every path: {why}",
                               {"fn": bu.name, "file": bu.file, "line": bu.line})
-    rep.rule("C02-HIST", n, 21, ok, "History saves (pre-move reads) and undo restores")
+    # "at any depth of nesting": the stack of saved states must not have a fixed capacity a legal game can exceed.
+    # The longest game the rules allow (75-move rule) has 17697 plies, and the search nests up to 255 more.
+    import re
+    hty = next((f["ty"] for f in fx.adt(gh.GAME)["variants"][0]["fields"] if f["name"] == "history"), None)
+    if hty is not None:
+        m = re.search(r"ArrayVec<[^,]+, ([\w:]+)>|\[[^;\]]+; ([\w:]+)\]", hty)
+        cap = None
+        if m:
+            cap = m.group(1) or m.group(2)
+            if not cap.isdigit():
+                try:
+                    cap = fx.const(cap if "::" in cap else "game::" + cap).get("int")
+                except Exception:
+                    cap = None
+            cap = int(cap) if cap is not None else None
+            if cap is None:
+                rep.notes.append(f"C02-HIST: capacity of `{hty}` could not be evaluated; nesting clause not decided")
+        n += 1
+        good = not (cap is not None and cap < 17697 + 256)
+        rep.obligation(good)
+        rep.sample({"rule": "C02-HIST", "history_type": hty})
+        if not good:
+            ok = False
+            rep.violation("C02-HIST", "C02-HIST/capacity", f"Game.history is `{hty}`: the stack of saved states holds at most {cap} entries, so the move after that many plies (game moves plus search nesting) cannot be made - a legal game can last 17697 plies",
+                          {"fn": "chess::game::Game", "file": fx.adt(gh.GAME).get("file"), "line": fx.adt(gh.GAME).get("line")})
+    rep.rule("C02-HIST", n, 21, ok, "History saves (pre-move reads) and undo restores; unbounded nesting")
 
 
 def body_expr(body, op):
@@ -723,6 +748,10 @@ def rule_forward(fx, rep):
 
 G = "src/chess/game.rs"
 MUTANTS = [
+    {"name": "saved-state stack with a fixed capacity of 1024 (seed C02-5a)", "expect": "C02-HIST/capacity",
+     "edits": [("src/chess/game.rs", "use crate::engine::eval::IncrementalEvalFields;\n", "use crate::engine::eval::IncrementalEvalFields;\nuse arrayvec::ArrayVec;\n"),
+               ("src/chess/game.rs", "    pub history: Vec<History>,", "    pub history: ArrayVec<History, 1024>,"),
+               ("src/chess/game.rs", "            history: Vec::new(),", "            history: ArrayVec::new(),")]},
     {"name": "losing a castling right also resets the halfmove clock (seed C02-4b)", "expect": "C02-FORWARD/single-writer/halfmove_clock",
      "edits": [("src/chess/game.rs", "        castle_rights.remove_rights(castle_rights_side);\n", "        castle_rights.remove_rights(castle_rights_side);\n        self.halfmove_clock = 0;\n")]},
     {"name": "benign: destination piece chosen with map_or, clock still tested on the lifted piece", "benign": True,
